@@ -89,28 +89,45 @@ Definition ok_cancel_cfg (h : hist) : bool :=
   | _ => kind_eqb (c_kind (h_cfg h)) KBatch && c_cancel_acc (h_cfg h)
   end.
 
+(* All four known defects strand a SUFFIX of the admission order: once the
+   dispatcher / the shard's drain has gone, nothing admitted later is taken either.
+   [no_later_terminal]: no task whose Submit was called after [s]'s Submit returned
+   has a run or cancel event (pools: one FIFO queue, one dispatcher). *)
+Definition no_later_terminal (h : hist) (s : sub) : bool :=
+  forallb (fun x => negb (is_ok (s_res x) && (s_e s <? s_b x) && has_terminal h (s_task x))) (h_subs h).
+(* mailbox: no handler call of the item's shard began after the item's Submit returned *)
+Definition no_later_run_on_shard (h : hist) (s : sub) : bool :=
+  forallb (fun r => negb (r_shard r =? s_shard s) || (r_b r <? s_e s)) (h_runs h).
+
 (* Exactly-once + close-waits for one admitted task [s] against one Close that
    returned nil at [l_e c]:
      0  the task has its terminal event before Close returned;
      1  violation (terminal event after Close returned, or lost without matching a known defect);
-     2  C37-K1  BoundedPool: the task is lost and its Submit call overlapped a Close call
-                (Close is once-only: later calls return the first call's result);
-     3  C37-K2  ShardedMailbox: the task is lost and its shard had a drain (the item
-                arrived between the drain's last empty check and finishShardDrain, which
-                does not reschedule once closed);
-     4  C37-K3  BoundedBatchPool, CancelRunningOnClose without CancelAcceptedOnClose: lost;
-     5  C37-K4  BoundedBatchPool, CancelAcceptedOnClose: lost although other accepted
-                items were cancelled (dispatcher leaves without cancelQueued). *)
+     2  C37-K1  BoundedPool: the task is lost, its Submit call overlapped a Close call
+                (Close is once-only: later calls return the first call's result), and
+                nothing admitted after it has a terminal event;
+     3  C37-K2  ShardedMailbox: the task is lost, its shard had a drain, and no handler call
+                of that shard began after the item was admitted (the item arrived between the
+                drain's last empty check and finishShardDrain, which does not reschedule once closed);
+     4  C37-K3  BoundedBatchPool, CancelRunningOnClose without CancelAcceptedOnClose: lost,
+                and nothing admitted after it has a terminal event (retryExecutor took ctx.Done);
+     5  C37-K4  BoundedBatchPool, CancelAcceptedOnClose: lost although other accepted items were
+                cancelled, and nothing admitted after it has a terminal event (dispatcher leaves
+                without cancelQueued). *)
 Definition task_code (h : hist) (c : clo) (s : sub) : N :=
   if terminal_before h (s_task s) (l_e c) then 0
   else if has_terminal h (s_task s) then 1
   else match c_kind (h_cfg h) with
-       | KPool => if existsb (fun c' => (s_b s <? l_e c') && (l_b c' <? s_e s)) (h_clos h) then 2 else 1
-       | KMailbox => if existsb (fun d => d_shard d =? s_shard s) (h_drains h) then 3 else 1
+       | KPool => if existsb (fun c' => (s_b s <? l_e c') && (l_b c' <? s_e s)) (h_clos h) && no_later_terminal h s
+                  then 2 else 1
+       | KMailbox => if existsb (fun d => d_shard d =? s_shard s) (h_drains h) && no_later_run_on_shard h s
+                     then 3 else 1
        | KBatch =>
-           if c_cancel_acc (h_cfg h)
-           then match h_cans h with [] => 1 | _ => 5 end
-           else if c_cancel_run (h_cfg h) then 4 else 1
+           if no_later_terminal h s then
+             if c_cancel_acc (h_cfg h)
+             then match h_cans h with [] => 1 | _ => 5 end
+             else if c_cancel_run (h_cfg h) then 4 else 1
+           else 1
        | KWorker => 1
        end.
 
